@@ -870,6 +870,8 @@ def _choice_points(summ, plan, after):
     for k in range(1, summ["ncalls"] + 1):
         if kmax is not None and k > kmax:
             break
+        if plan.get("only_last") and k != summ["ncalls"]:
+            continue     # budget-end rows: only the last evaluation the budget allows is a choice point
         if k in memo:
             continue     # a repeated x gets the memoised answer: not a choice point
         for letter in plan.get("letters", ()):
